@@ -92,7 +92,7 @@ def mat(i):
     # matrix 3 (the one with an all-pruned row) is float32, the dtype the OCR engine produces; it also gets a large logit
     if i == 3:
         M = np.asarray(MATS[i], dtype=np.float32)
-        M[0, 0] = 12.0
+        M[0, 0] = 30.0          # with the -80 floor of the pruned row: a dynamic range beyond float32's exp() range
         return sparse.csc_matrix(M)
     return sparse.csc_matrix(np.asarray(MATS[i], dtype=np.float64))
 
